@@ -4,7 +4,7 @@ from .. import core, monitors, pcheck, world
 
 ID = "C03"
 LEVEL = "exploration"
-MAIN_CLAUSES = ["starving_no_feed", "final_reaches_threshold", "within_demand", "zero_after_shutoff"]
+MAIN_CLAUSES = ["threshold_as_configured", "starving_no_feed", "final_reaches_threshold", "within_demand", "zero_after_shutoff"]
 RULE = (
     "history = 2-3 seeded three-round jobs, threshold T overridden in ~half of them (0..100), cbc or random-optimal-"
     "vertex solver, buggified round-2 skip; a case = one job's recorded 3-round history checked against the demand "
